@@ -398,45 +398,80 @@ def Host.respond (h : Host) (clock : Int) (msg : Option Pkt) (addr port : Nat) (
   let lis := lis.popDeferred addr
   { h with lis := lis }.assemble clock pkts addr port seen draws
 
-/-- one atomic block of the host -/
-def Host.step (h : Host) (e : Ev) : Except String StepOut :=
-  if !h.notOverdue e.time then .error "clock-passed-a-due-timer" else
-  match e with
-  | .rx t addr port dataId size hasQu kind seen draws =>
-    if Gen.Reply.l_oversize size then
-      if draws.isEmpty then .ok { host := h } else .error "unused-draw"
+/-- what a block does, decided from the event and the listener's state alone -/
+inductive Act where
+  /-- nothing is sent and nothing queued: the datagram is dropped (oversize, duplicate, already deferred), invalid, or a response
+  (handled by the record manager, not modelled); `lis` is the listener afterwards (only its duplicate-guard fields can differ) -/
+  | idle (lis : Listener)
+  /-- a truncated packet is stored and the address's timer re-armed with draw `d` -/
+  | defer (lis : Listener) (d : Int)
+  /-- `handle_assembled_query(pkts, addr, port, …)`; `lis` is the listener after `_respond_query` cancelled the address's timer
+  and took its deferred packets -/
+  | answer (lis : Listener) (pkts : List Pkt) (addr port : Nat)
+  /-- `async_ready` of the aggregation (`false`) or the protected (`true`) queue -/
+  | ready (delayed : Bool)
+  deriving Repr
+
+/-- `_respond_query`'s bookkeeping: the listener afterwards and the packets handed on -/
+def Listener.take (l : Listener) (msg : Option Pkt) (addr : Nat) : Listener × List Pkt :=
+  ((l.cancelTimer addr).popDeferred addr, (l.cancelTimer addr).deferredOf addr ++ msg.toList)
+
+/-- which action the block takes, with the draws it may consume (`datagram_received`, the truncated-query timer, a queue timer).
+The event-loop facts the model relies on are checked here and in `Host.step`: a timer callback runs exactly when it is due, a
+datagram is stamped with the time of its block. -/
+def Host.decide (h : Host) : Ev → Except String Act
+  | .rx t addr port dataId size hasQu kind _ draws =>
+    if Gen.Reply.l_oversize size then .ok (.idle h.lis)
     else if Gen.Reply.l_duplicate (h.lis.lastData == some dataId) t h.lis.lastTime h.lis.lastMsgQu.isNone (h.lis.lastMsgQu.getD false) then
-      if draws.isEmpty then .ok { host := h } else .error "unused-draw"
+      .ok (.idle h.lis)
     else
-      let h := { h with lis := { h.lis with lastData := some dataId, lastTime := t, lastMsgQu := some hasQu } }
+      let lis := { h.lis with lastData := some dataId, lastTime := t, lastMsgQu := some hasQu }
       match kind with
-      | .invalid | .response => if draws.isEmpty then .ok { host := h } else .error "unused-draw"
+      | .invalid | .response => .ok (.idle lis)
       | .query p =>
         if p.now ≠ t then .error "packet-not-stamped-with-its-arrival" else
-        if Gen.Reply.l_not_truncated p.truncated then do
-          let (r, rest) ← h.respond t (some p) addr port seen draws
-          if rest.isEmpty then pure r else .error "unused-draw"
+        if Gen.Reply.l_not_truncated p.truncated then
+          .ok (.answer (lis.take (some p) addr).1 (lis.take (some p) addr).2 addr port)
+        else if (lis.deferredOf addr).any (fun q => q.dataId == p.dataId) then .ok (.idle lis)
         else
-          let dl := h.lis.deferredOf addr
-          if dl.any (fun q => q.dataId == p.dataId) then
-            if draws.isEmpty then .ok { host := h } else .error "unused-draw"
-          else do
-            let (d, rest) ← takeDraw tcLo tcHi draws
-            if !rest.isEmpty then .error "unused-draw" else
-            pure { host := { h with lis := h.lis.defer t addr port p d }, draws := [Draw.mk tcLo tcHi d] }
-  | .tcfire t addr seen draws =>
+          match takeDraw tcLo tcHi draws with
+          | .error e => .error e
+          | .ok (d, rest) => if !rest.isEmpty then .error "unused-draw" else .ok (.defer (lis.defer t addr port p d) d)
+  | .tcfire t addr _ _ =>
     match h.lis.timers.find? (fun tm => tm.addr == addr) with
     | none => .error "no-such-timer"
     | some tm =>
-      if tm.due ≠ t then .error "timer-not-due" else do
-        let (r, rest) ← h.respond t none addr tm.port seen draws
-        if rest.isEmpty then pure r else .error "unused-draw"
+      if tm.due ≠ t then .error "timer-not-due"
+      else .ok (.answer (h.lis.take none addr).1 (h.lis.take none addr).2 addr tm.port)
   | .qfire t delayed =>
+    if (if delayed then h.delayQ else h.outQ).timer ≠ some t then .error "timer-not-due" else .ok (.ready delayed)
+
+def Ev.seen : Ev → SeenMap
+  | .rx _ _ _ _ _ _ _ s _ => s | .tcfire _ _ s _ => s | .qfire _ _ => []
+
+def Ev.draws : Ev → List Int
+  | .rx _ _ _ _ _ _ _ _ d => d | .tcfire _ _ _ d => d | .qfire _ _ => []
+
+/-- carrying the action out at loop time `t` -/
+def Host.perform (h : Host) (t : Int) (seen : SeenMap) (draws : List Int) : Act → Except String StepOut
+  | .idle lis => if draws.isEmpty then .ok { host := { h with lis := lis } } else .error "unused-draw"
+  | .defer lis d => .ok { host := { h with lis := lis }, draws := [Draw.mk tcLo tcHi d] }
+  | .answer lis pkts addr port =>
+    match { h with lis := lis }.assemble t pkts addr port seen draws with
+    | .error e => .error e
+    | .ok (r, rest) => if rest.isEmpty then .ok r else .error "unused-draw"
+  | .ready delayed =>
     let q := if delayed then h.delayQ else h.outQ
-    if q.timer ≠ some t then .error "timer-not-due" else
     let (q', batch) := q.ready t
     let h' := if delayed then { h with delayQ := q' } else { h with outQ := q' }
     .ok { host := h', outs := match batch with | some b => [Out.ofMcast b] | none => [] }
+
+/-- one atomic block of the host: the clock has not passed a due timer, then `decide` and `perform` -/
+def Host.step (h : Host) (e : Ev) : Except String StepOut :=
+  if !h.notOverdue e.time then .error "clock-passed-a-due-timer" else
+  match h.decide e with
+  | .error m => .error m
+  | .ok a => h.perform e.time e.seen e.draws a
 
 /-- run a whole trace: per event the outputs and the draws consumed -/
 def Host.run : Host → Int → List Ev → Except String (Host × List (Int × List Out × List Draw))
